@@ -210,13 +210,41 @@ class Gen:
             items = [] if r.random() < 0.5 else [("org", N(self.origin(cpu)))]
         elif shape == "labels":
             items += [self.lab()] + self.body(cpu, r.randrange(2, 8), labels=0.9) + [self.lab()]
+        elif shape == "overwrite":
+            # a second .org over bytes that were already assembled (and listed)
+            o = self.origin(cpu, r.choice(["low", "mid"]))
+            items = [("org", N(o)), self.ins(cpu), self.data(), self.ins(cpu), ("org", N(o)), self.data(), self.ins(cpu)]
+        elif shape == "top":
+            # the program ends exactly at (or a few bytes below) the top of the 32-bit address space
+            bpa = self.table[cpu]["bpa"]
+            tail = [self.ins(cpu), self.data(odd=False)] if r.random() < 0.5 else [self.data(odd=False), self.ins(cpu)]
+            items = [("org", N((0x100000000 - r.choice([16, 32, 64])) // bpa))] + tail
+            prog = {"cpu": cpu, "items": items, "shape": shape, "fit_top": r.choice([0, 0, 1, 2, 4])}
+            return prog
         else:
             raise ValueError(shape)
         return {"cpu": cpu, "items": items, "shape": shape}
 
 
 SHAPES = ["plain", "plain", "odd-data", "repeat", "repeat", "gaps", "segments", "macro", "include", "data-only", "data-units",
-          "code-only", "empty", "labels"]
+          "code-only", "empty", "labels", "overwrite"]
+
+
+def has_gap(items):
+    return any(it[0] in ("resb", "resw", "alignbits", "alignbytes", "org") or (it[0] in ("mac", "inc", "rep") and has_gap(it[2]))
+               for it in items)
+
+
+def rep_gap_flags(items, out=None):
+    """for every repeat block in instrument() order: does its body contain a reservation / alignment / .org"""
+    out = out if out is not None else []
+    for it in items:
+        if it[0] == "rep":
+            out.append(has_gap(it[2]))
+            rep_gap_flags(it[2], out)
+        elif it[0] in ("mac", "inc"):
+            rep_gap_flags(it[2], out)
+    return out
 
 
 # ---------------------------------------------------------------- statement extents (instrumented copy)
@@ -310,11 +338,16 @@ def judge(prog, lst_text, file_img, pr, ext=None, iso=None):
     if bpa == 1 and cpu in ("msp430", "msp430x", "avr8"):
         unaligned = sorted(a for a in image if iscode(a) and not iscode(a - 1) and a % 2 != 0)
     inc_ranges = ext["inc"]
-    rep_ranges = [(m, e) for (s, m, e, n) in ext["rep"]]          # the copies
+    gapflags = rep_gap_flags(prog["items"])
+    rep_ranges = []                                               # the copies (+ what a walk may overrun)
+    for i, (s_, m, e, n) in enumerate(ext["rep"]):
+        rep_ranges.append((m, e + 8, "repeat-gap-copy" if i < len(gapflags) and gapflags[i] else "repeat-copy"))
     lines_sorted = sorted(L["lines"], key=lambda l: l["addr"])
     mismatch = []          # (start, end reached by the lines, mnemonic)
     for (s, e, text) in ext["ins"]:
         if any(a <= s < b for a, b in inc_ranges):
+            continue
+        if prog.get("shape") == "overwrite" or e < s:      # (e < s: the statement ends at 2^32, its end label is 0)
             continue
         inside = [l for l in lines_sorted if s <= l["addr"] < max(e, s + 1)]
         pos = s
@@ -333,7 +366,19 @@ def judge(prog, lst_text, file_img, pr, ext=None, iso=None):
             reach = max([e] + [l["addr"] + len(l["bytes"]) for l in inside])
             mismatch.append((s, reach, mnemonic(text)))
 
+    # the code run that ends at the last address of the 32-bit space: its statement's end address wraps to 0
+    toprun = set()
+    if iscode(0xffffffff):
+        a = 0xffffffff
+        while iscode(a):
+            toprun.add(a)
+            a -= 1
+
     def cause(a, code):
+        if prog.get("shape") == "overwrite":
+            return "overwrite"
+        if a in toprun:
+            return "top-of-memory"
         if code and any(x <= a < y for x, y in inc_ranges):
             return "include-code"
         if unaligned and code:
@@ -341,8 +386,9 @@ def judge(prog, lst_text, file_img, pr, ext=None, iso=None):
         for (s, r, m) in mismatch:
             if s <= a < r:
                 return "walk-mismatch:" + m
-        if any(x <= a < y for x, y in rep_ranges):
-            return "repeat-copy"
+        for x, y, name in rep_ranges:
+            if x <= a < y:
+                return name
         return None
 
     def add(cls, a, detail, code=True):
